@@ -138,17 +138,28 @@ class WorldA:
     def on_close(self, tr: ScriptTransport) -> None:
         pass
 
-    def on_write(self, tr: ScriptTransport, data: bytes) -> None:
+    def on_write(self, tr: ScriptTransport, data: bytes) -> float | None:
         atts = self.plan["attempts"]
         a = atts[self.attempt] if self.attempt < len(atts) else {"events": []}
         self.attempt += 1
         if a.get("write_error"):
             self.rec.rec("write_error", conn=tr.index, error="BrokenPipeError")
             raise BrokenPipeError(32, "Broken pipe")
+        if a.get("write_stall"):
+            self._stalled = (tr, a)
+            return a["write_stall"]
         t = 0.0
         for ev in a["events"]:
             t += ev["d"]
             self.loop.call_later(t, self._deliver, tr, ev)
+        return None
+
+    def on_write_done(self, tr: ScriptTransport) -> None:
+        tr_, a = self._stalled
+        t = 0.0
+        for ev in a["events"]:
+            t += ev["d"]
+            self.loop.call_later(t, self._deliver, tr_, ev)
 
     def _deliver(self, tr: ScriptTransport, ev: dict[str, Any]) -> None:
         k = ev["k"]
@@ -323,6 +334,19 @@ def judge(plan: dict[str, Any], events: list[list[Any]], outcome: tuple[str, Any
             phase = "first_read"
             continue
         if kind == "write_error":
+            if phase != "first_read":
+                continue
+            retry_or(MISSING)
+            continue
+        if kind == "write_stalled":
+            if d.get("timeout") is None or abs(d["timeout"] - T) > 1e-9:
+                # the caller's timeout bounds the whole attempt, the write included: a write that the peer does not take must end
+                violation(res, "C04/timeout", f"C04/timeout:write-{'without-timeout' if d.get('timeout') is None else 'uses-other-value'}",
+                          f"attempt {i}: the request was written with timeout {d.get('timeout')} (effective request timeout {T})")
+                return
+            continue
+        if kind == "write_timeout":
+            # the peer did not take the request within the caller's timeout: the attempt timed out
             if phase != "first_read":
                 continue
             retry_or(MISSING)
@@ -543,6 +567,12 @@ class C04(Check):
             atts.append(a)
         plan["attempts"] = atts
         plan["reconnect"] = [rng.choice(["ok", "ok", "ok", "ok", "refused"]) for _ in range(mr + 1)]
+        if plan["world"] == "A":
+            # a write the peer takes late (flow control / slow acknowledgement) or never: drawn from a stream of its own
+            rng2 = rng_for(seed, "C04-write-stall", index)
+            for a in atts:
+                if not a.get("write_error") and rng2.random() < 0.04:
+                    a["write_stall"] = rng2.choice([round(T * 0.4, 4), T + 0.3, 1.0e6])
         return plan
 
     def _stratum(self, plan: dict[str, Any], index: int, rng: Any) -> dict[str, Any]:
@@ -693,7 +723,7 @@ class C04(Check):
                 shape.append(c)
                 if c not in ("pos_final", "neg_final"):
                     bump(res["faults"], c)
-            elif k in ("read_timeout", "read_error", "write_error", "connect_error"):
+            elif k in ("read_timeout", "read_error", "write_error", "write_timeout", "connect_error"):
                 shape.append(k)
                 bump(res["faults"], k)
             elif k in ("write", "raise", "return"):
